@@ -195,14 +195,11 @@ var plainStyledSkipPairs = map[string]string{
 	"srt->stl":  "the STL writer joins the runs of a line with a space; the plain view puts run texts together",
 	"vtt->stl":  "the STL writer joins the runs of a line with a space",
 	"ssa->stl":  "the STL writer joins the runs of a line with a space",
-	"vtt->ssa":  "voice names travel as the Name column",
-	"ssa->vtt":  "the speaker name travels as a voice tag",
 	"vtt->ttml": "regions and the default style are written as TTML layout/styling; runs as spans",
 	"ssa->ttml": "the styles map is written as TTML styling; runs as spans",
-	// TTML sources are decoded through the XML parser model for hand-written documents (Kit/XmlParse2.v); ttml->srt is
-	// compared; the pairs below legitimately differ from the plain view:
-	"ttml->vtt":  "TTML regions (with their origin/extent mapped to WebVTT settings) and the cue's region travel to WebVTT",
-	"ttml->ssa":  "the TTML styles map is written as the SSA styles section",
+	// ssa->vtt, vtt->ssa, ttml->vtt, ttml->ssa are modelled exactly (styledConvSuites: Model/ConvSsaVtt.v, ConvVttSsa.v,
+	// ConvTtmlVtt.v, ConvTtmlSsa.v; C07_*_styled).  TTML sources are decoded through the XML parser model for hand-written
+	// documents (Kit/XmlParse2.v); ttml->srt is compared; the pairs below legitimately differ from the plain view:
 	"ttml->stl":  "the STL writer joins the runs of a line with a space, and the mapped language goes to the GSI block",
 	"ttml->ttml": "same format: styles, regions, references and inline attributes are kept (C03)",
 }
